@@ -182,6 +182,52 @@ static void sc_rejected_add(vf_result *r)
 	vf_fail(r, "rejected-add:terms-differ", "error terms differ from the "
 		"control by %.3e", worst);
     }
+    /*
+     * a rejected standard adds nothing, also no hold on the parameters it
+     * named before the rejection: a vector parameter that no accepted
+     * standard uses does not restrict the frequencies of the calibration
+     */
+    if (r->status == VF_OK) {
+	double fv[3], band2[3];
+	double complex gv[3] = { -0.9, -0.85 + 0.05 * I, -0.8 + 0.1 * I };
+	vnacal_new_t *vnp = vnacal_new_alloc(F->vcp, VNACAL_T8, 2, 2, 3);
+	int pv;
+	for (int k = 0; k < 3; ++k) {
+	    fv[k] = F->f3[k];
+	    band2[k] = 10.0 * F->f3[k];
+	}
+	pv = vnacal_make_vector_parameter(F->vcp, fv, 3, gv);
+	if (vnp == NULL || pv < 0 ||
+		vnacal_new_set_frequency_vector(vnp, F->f3) != 0) {
+	    vf_fail(r, "scenario-setup", "alloc failed");
+	    return;
+	}
+	vf_errlog_reset(&F->elog);
+	errno = 0;
+	/* (the deleted handle of the fixture may have been issued again
+	   for pv: name one that was never issued) */
+	rc = vnacal_new_add_double_reflect_m(vnp, F->mp, 2, 2, pv,
+		9999, 1, 2);
+	e = errno;
+	++r->transitions;
+	if (rc != -1 || e != EINVAL) {
+	    vf_fail(r, "rejected-add:report", "add with a band-limited "
+		    "vector and a handle never issued: rc %d errno %d", rc, e);
+	} else {
+	    vf_errlog_reset(&F->elog);
+	    rc = vnacal_new_set_frequency_vector(vnp, band2);
+	    ++r->transitions;
+	    if (rc != 0)
+		vf_fail(r, "rejected-add:parameter-kept", "after a rejected "
+			"standard that named a vector parameter given on "
+			"%.3g..%.3g Hz, the calibration (which holds no "
+			"standard) refuses the frequencies %.3g..%.3g Hz: %s",
+			fv[0], fv[2], band2[0], band2[2],
+			F->elog.count ? F->elog.msg[0] : "");
+	}
+	vnacal_new_free(vnp);
+	(void)vnacal_delete_parameter(F->vcp, pv);
+    }
     r->nontrivial = 1;
     vf_outcome(r, "rejected add, solve rc %d", rc1);
 }
